@@ -221,7 +221,8 @@ def nack_encoder(F, D, res):
                 X = Explorer(F, I)
                 rep = IterProtocol(X, s, it, nxt[0], (it.adt,)).run()
                 for lr in I.loop_reports:
-                    if lr.fn != nxt[0]:
+                    from .c15 import _module
+                    if not (lr.fn == nxt[0] or _module(lr.fn) == _module(nxt[0])) or lr.kind != "for":
                         continue
                     # the word in progress: the carried variable into which some step ORs a `1 << amount` term
                     # (identified by what is done to it, not by its name)
